@@ -12,6 +12,7 @@ git -C /repo worktree add --detach "$REPO2" HEAD -q || exit 2
 rsync -a --exclude target /verif/sim/ "$SIM2/"
 grep -rl "/repo" "$SIM2" --include=Cargo.toml --include=gen_shadow.py | xargs sed -i "s#/repo#$REPO2#g"
 cp /verif/known_findings.txt "$V2/"; mkdir -p "$V2/loom"
+rsync -a --exclude target --exclude muxshadow /verif/shuttle/ "$V2/shuttle/"
 ( cd "$SIM2" && ./gen_shadow.sh && cargo build --release --offline -q 2>&1 | grep -E "^error" -A 6 | head -20 )
 FAIL=0
 for d in /verif/seeded/*${1:-}*/; do
@@ -24,11 +25,12 @@ for d in /verif/seeded/*${1:-}*/; do
   for id in $ids; do
     case "$id" in
       C12) out=$(VERIF_REPO="$REPO2" VERIF_DIR="$V2" /verif/loom/run.sh C12 --tier quick 2>&1);;
+      C12S|C07S|C08S) out=$(VERIF_REPO="$REPO2" VERIF_DIR="$V2" "$V2/shuttle/run.sh" ${id%S} --tier quick 2>&1);;
       C07L|C08L) out=$(VERIF_REPO="$REPO2" VERIF_DIR="$V2" /verif/loom/run.sh ${id%L} --tier quick 2>&1);;
       *) BIN=muxsim; case "$id" in C01|C14|C19) BIN=syssim;; esac
          out=$(VERIF_DIR="$V2" "$SIM2/target/release/$BIN" check "$id" --tier quick --no-evidence 2>&1);;
     esac
-    if echo "$out" | grep -q "VIOLATION property=${id%L}\|^violation scenario"; then res="$res $id:caught"; else res="$res $id:MISSED"; FAIL=1; fi
+    if echo "$out" | grep -q "VIOLATION property=${id%[LS]}\|^violation scenario"; then res="$res $id:caught"; else res="$res $id:MISSED"; FAIL=1; fi
     rm -rf "$V2/replays"
   done
   echo "$n:$res"
